@@ -14,7 +14,7 @@ MANIFEST = dict(
          'loops and the `_permissioned_tagmaps` line, custom-annotation processors, imported namespaces, route io '
          'types, route whitelist + normalize, stub import blocks); for each such site the emitted text is proved '
          'independent of that order (`gen_order_free`, `caller_loop_order_free`, `field_procs_order_free`, '
-         '`remaining_order_free`, `imports_order_free`, `whitelist_routes_order_free`, ...); the per-caller tables and the '
+         '`remaining_order_free`, `imports_order_free`, `adhoc_order_free`, `whitelist_routes_order_free`, ...); the per-caller tables and the '
          'custom-annotation processor blocks need no hypothesis about ties any more (only that an annotation is identified '
          'by namespace and name), the forms these sites had before their repair are kept as regression models and proved '
          'order dependent (`tagmaps_order_dependent`, `procs_order_dependent_same_type`, '
@@ -99,6 +99,10 @@ def run(ck):
             raise RuntimeError('determinism worker failed (%s): %s' % (label, err[-800:]))
     ck.note('D15 (`_permissioned_tagmaps` printed a set) is repaired in /repo: the line is modelled by tagmapsLineSorted, the '
             'printed-set form stays as regression model (tagmaps_order_dependent) and as hand seed')
+    ck.note('the ad-hoc import statements of a stub (import datetime, from <pkg> import <ns> for indirectly reached '
+            'namespaces) are emitted sorted since the stub repair: adhocImportLines is the sorted block, order-free for any '
+            'set of statements (adhoc_order_free has no hypothesis left); the set-order loop stays as regression model '
+            '(adhoc_unsorted_order_dependent) and a stub with four statements as hand seed')
     ck.note('the three sort-key ties of python_types (omitted caller named None; annotation types of one name in two '
             'namespaces; two annotations of one type along an alias chain) are repaired in /repo: the models follow the new '
             'keys (callerKey, Proc.key, remaining), the former forms stay as regression models (callerLoopStr, '
